@@ -3,6 +3,7 @@
 use std::io::{self, BufRead, Write};
 
 mod merge;
+mod backup;
 
 fn main() {
     let args: Vec<String> = std::env::args().collect();
@@ -28,6 +29,18 @@ fn main() {
         "segments" => {
             for f in &args[2..] {
                 writeln!(out, "{}", merge::segments_file(f)).unwrap();
+            }
+        }
+        "isnum" => {
+            for line in stdin.lock().lines() {
+                let line = line.unwrap();
+                writeln!(out, "{}", backup::isnum_line(&line)).unwrap();
+            }
+        }
+        "nextnum" => {
+            for line in stdin.lock().lines() {
+                let line = line.unwrap();
+                writeln!(out, "{}", backup::nextnum_line(&args[2], &line)).unwrap();
             }
         }
         other => {
